@@ -310,6 +310,10 @@ struct SView {
     /// Overlapping attachments: the session this one was attached over, and the one attached over this one.
     dup_of: Option<usize>,
     superseded_by: Option<usize>,
+    /// Re-attachment under the id of an attachment the runtime had removed, whose reader the harness still
+    /// held: that session, and (on that session) the one that was attached under its id.
+    prev_open: Option<usize>,
+    reattached_by: Option<usize>,
     /// The remote wrote a request frame that does not decode.
     corrupt: Option<(u64, Option<u64>, CorruptHow)>,
 }
@@ -342,18 +346,45 @@ pub fn check_all(obs: &Obs, out: &mut CaseOut) -> Summary {
     }
     // The runtime's task panicked in a conversation with overlapping attachments: one finding (everything
     // else - dropped promises, channels closed with links open - follows from the panic).
-    if let (true, Some(Err(e))) = (obs.sessions.iter().any(|s| s.dup_of.is_some()), &obs.agent_result) {
+    // (The same for an id that attached again after the runtime had removed it while the harness still held the
+    // old reader, i.e. while a write to the removed attachment could still be under way.)
+    if let (true, Some(Err(e))) = (obs.sessions.iter().any(|s| s.dup_of.is_some() || s.prev_open.is_some()), &obs.agent_result) {
         if e.contains("panicked") {
             for s in &obs.sessions {
                 out.events += s.log.lock().frames.len() as u64;
             }
-            out.count("dup-attachments-while-the-first-is-open");
-            out.violation(
-                "C04",
-                "dup-attach/runtime-panicked",
-                "the agent runtime panicked after a remote id was attached a second time while its first attachment was open",
-                json!({"error": e, "attachments": obs.sessions.iter().filter(|s| s.dup_of.is_some()).count()}),
-            );
+            // C03 as well when a sync request that the runtime had accepted was left without its synced.
+            let sync_cut = obs.sessions.iter().filter(|s| !s.one_way).any(|s| {
+                let (reqs, log) = (s.reqs.lock(), s.log.lock());
+                reqs.reqs.iter().any(|r| {
+                    r.kind == ReqKind::Sync
+                        && r.t1.is_some()
+                        && obs.cfg.lanes.iter().enumerate().any(|(i, l)| l.name == r.lane && obs.lanes[i].failed.is_none())
+                        && !reqs.reqs.iter().any(|u| u.kind == ReqKind::Unlink && u.lane == r.lane && u.t0 > r.t0)
+                        && !log.frames.iter().any(|f| f.lane == r.lane && f.kind == FrameKind::Synced && f.ticket > r.t0)
+                })
+            });
+            if sync_cut {
+                let prefix = if obs.sessions.iter().any(|s| s.dup_of.is_some()) { "dup-attach" } else { "completed-attachment" };
+                out.violation("C03", format!("{prefix}/runtime-panicked"), "the agent runtime panicked and a sync request it had accepted was never answered with synced", json!({"error": e}));
+            }
+            if obs.sessions.iter().any(|s| s.dup_of.is_some()) {
+                out.count("dup-attachments-while-the-first-is-open");
+                out.violation(
+                    "C04",
+                    "dup-attach/runtime-panicked",
+                    "the agent runtime panicked after a remote id was attached a second time while its first attachment was open",
+                    json!({"error": e, "attachments": obs.sessions.iter().filter(|s| s.dup_of.is_some()).count()}),
+                );
+            } else {
+                out.count("reattach-over/attachments-under-the-id-of-a-removed-one-with-its-reader-kept");
+                out.violation(
+                    "C04",
+                    "completed-attachment/runtime-panicked",
+                    "the agent runtime panicked after a remote id, removed for inactivity while a write to it could still be under way, attached again and the reader of the removed attachment went on reading (or went away)",
+                    json!({"error": e, "attachments": obs.sessions.iter().filter(|s| s.prev_open.is_some()).count()}),
+                );
+            }
             return sum;
         }
     }
@@ -379,13 +410,16 @@ pub fn check_all(obs: &Obs, out: &mut CaseOut) -> Summary {
         .map(|s| {
             let l = s.log.lock();
             let r = s.reqs.lock();
-            SView { frames: l.frames.clone(), end: l.end.clone(), reqs: r.reqs.clone(), prior_reqs: vec![], completion: *s.completion.lock(), dup_of: s.dup_of, superseded_by: None, corrupt: r.corrupt }
+            SView { frames: l.frames.clone(), end: l.end.clone(), reqs: r.reqs.clone(), prior_reqs: vec![], completion: *s.completion.lock(), dup_of: s.dup_of, superseded_by: None, prev_open: s.prev_open, reattached_by: None, corrupt: r.corrupt }
         })
         .collect();
     let mut views = views;
     for si in 0..views.len() {
         if let Some(d) = views[si].dup_of {
             views[d].superseded_by = Some(si);
+        }
+        if let Some(d) = views[si].prev_open {
+            views[d].reattached_by = Some(si);
         }
     }
     for si in 0..views.len() {
@@ -469,6 +503,24 @@ pub fn check_all(obs: &Obs, out: &mut CaseOut) -> Summary {
         if s.dup_of.is_some() && s.attached_t1.is_some() {
             out.count("dup-attachments-while-the-first-is-open");
         }
+        // This attachment was made under the id of one the runtime had removed; the reader of that one was
+        // dropped afterwards, and this one - whose own reader was never dropped - was then completed with ChannelClosed.
+        let removed_for_old = match (s.prev_open, v.completion, &v.end) {
+            (Some(p), Some((t, Some(DisconnectionReason::ChannelClosed))), own_end) => {
+                matches!(&views[p].end, Some(ReaderEnd::Dropped(d)) if *d < t) && !matches!(own_end, Some(ReaderEnd::Dropped(d)) if *d < t)
+            }
+            _ => false,
+        };
+        if let (Some(p), Some(ta)) = (s.prev_open, s.attached_t1) {
+            out.count("reattach-over/attachments-under-the-id-of-a-removed-one-with-its-reader-kept");
+            if views[p].frames.iter().any(|f| f.ticket > ta) {
+                // the write that was under way when the runtime removed the remote completed after the re-attachment
+                out.count("reattach-over/old-write-completed-after-the-reattachment");
+            }
+            if matches!(&views[p].end, Some(ReaderEnd::Dropped(d)) if *d > ta) {
+                out.count("reattach-over/old-reader-dropped-after-the-reattachment");
+            }
+        }
         if let Some((_, t1, how)) = v.corrupt {
             out.count(&format!("corrupt-request-frames/{}", how.name()));
             if t1.is_some() && s.reqs.lock().write_failed {
@@ -518,20 +570,31 @@ pub fn check_all(obs: &Obs, out: &mut CaseOut) -> Summary {
         // reported on the attachment that got them; what is then missing or surplus on either channel is not
         // reported again under the general rules. For the attachment that should have got them only the C03
         // promise is kept: a sync requested on it completes on it.
+        // (Likewise for an attachment that the runtime removed - promise completed with RemoteTimedOut - and whose
+        // id then attached again: signatures `completed-attachment/..`.)
         if misrouted_ids.contains(&s.id) {
             out.count("dup-attach/attachments-of-an-id-with-misrouted-frames");
             let mut kinds_reported: HashSet<&'static str> = HashSet::new();
             for (f, lane, tc) in late_frames(v, &lanes, &lane_by_name) {
                 if kinds_reported.insert(f.kind.name()) {
-                    out.violation(
-                        "C04",
-                        format!("dup-attach/frame-written-to-replaced-attachment/{}", f.kind.name()),
-                        "after a remote id was attached a second time and the promise of its first attachment was completed, the runtime wrote a frame that was produced later to the channel of the first attachment",
-                        json!({"lane": lane, "frame": f.kind.name(), "body": show(&f.body), "replaced_at": tc, "received_at": f.ticket}),
-                    );
+                    if v.superseded_by.is_some() {
+                        out.violation(
+                            "C04",
+                            format!("dup-attach/frame-written-to-replaced-attachment/{}", f.kind.name()),
+                            "after a remote id was attached a second time and the promise of its first attachment was completed, the runtime wrote a frame that was produced later to the channel of the first attachment",
+                            json!({"lane": lane, "frame": f.kind.name(), "body": show(&f.body), "replaced_at": tc, "received_at": f.ticket}),
+                        );
+                    } else {
+                        out.violation(
+                            "C04",
+                            format!("completed-attachment/frame-written-after-completion/{}", f.kind.name()),
+                            "after the runtime had removed a remote (promise completed) and its id had attached again, the runtime wrote a frame that was produced later to the channel of the removed attachment",
+                            json!({"lane": lane, "frame": f.kind.name(), "body": show(&f.body), "completed_at": tc, "received_at": f.ticket}),
+                        );
+                    }
                 }
             }
-            if v.superseded_by.is_none() && quiescent_ok && reader_alive_at_q {
+            if v.superseded_by.is_none() && v.reattached_by.is_none() && quiescent_ok && reader_alive_at_q {
                 for (lane, lf) in &by_lane {
                     let Some(li) = lane_by_name.get(lane.as_str()).map(|i| &lanes[*i]) else { continue };
                     if li.fail_t.is_some() || li.rec.write_error.is_some() || lf.prior.iter().any(|r| r.kind == ReqKind::Sync) {
@@ -540,7 +603,14 @@ pub fn check_all(obs: &Obs, out: &mut CaseOut) -> Summary {
                     if let Some(last_sync) = lf.reqs.iter().filter(|r| r.kind == ReqKind::Sync && r.t1.map_or(false, |t| t < q)).last() {
                         let unlink_after = lf.reqs.iter().any(|r| r.kind == ReqKind::Unlink && r.t0 > last_sync.t0);
                         let answered = lf.frames.iter().any(|f| f.kind == FrameKind::Synced && f.ticket > last_sync.t0);
-                        if !unlink_after && !answered {
+                        if !unlink_after && !answered && s.dup_of.is_none() {
+                            out.violation(
+                                "C03",
+                                format!("completed-attachment/sync-on-the-new-attachment-never-completed/{}", li.spec.kind.name()),
+                                "a sync requested on the new attachment of a remote id was never answered there with synced (frames of that id were written to the attachment the runtime had removed before)",
+                                json!({"lane": lane}),
+                            );
+                        } else if !unlink_after && !answered {
                             out.violation(
                                 "C03",
                                 format!("dup-attach/sync-on-the-second-attachment-never-completed/{}", li.spec.kind.name()),
@@ -1232,6 +1302,9 @@ pub fn check_all(obs: &Obs, out: &mut CaseOut) -> Summary {
                 } else if open && v.superseded_by.is_some() {
                     // the id's links live on with the attachment that replaced this one
                     out.count("dup-attach/first-channel-closed-with-link-open");
+                } else if open && removed_for_old {
+                    // reported once, with the completion reason
+                    out.count("completed-attachment/links-gone-without-unlinked-with-the-removed-new-registration");
                 } else if let (true, Some((_, bl, t_key))) = (open, cut) {
                     // Everything the runtime had for this remote was written before it dropped the writer (the
                     // writer is only lost while it is idle), and the reader read up to the end of the stream: the
@@ -1299,6 +1372,14 @@ pub fn check_all(obs: &Obs, out: &mut CaseOut) -> Summary {
                             } else if !ended {
                                 out.violation("C04", "completion/agent-stopped-without-stop", "a remote was completed with AgentStoppedExternally although nobody stopped the agent", json!({"at": t}));
                             }
+                        }
+                        DisconnectionReason::ChannelClosed if removed_for_old => {
+                            out.violation(
+                                "C04",
+                                "completed-attachment/new-registration-removed-when-write-to-the-old-channel-failed",
+                                "a remote id attached again after the runtime had removed it; when the reader of the removed attachment was dropped, the runtime removed the new, healthy attachment with ChannelClosed (its links go without unlinked)",
+                                json!({"at": t, "links_open_in_the_remotes_view": by_lane.values().filter(|lf| open_before(&lf.frames, t).0).count()}),
+                            );
                         }
                         DisconnectionReason::ChannelClosed => {
                             if !dropped_reader.map_or(false, |d| d < t) {
@@ -1768,7 +1849,7 @@ fn check_inactivity(obs: &Obs, lanes: &[LaneInfo], views: &[SView], out: &mut Ca
 /// replaced it. (A write that was under way at the replacement carries a frame produced before it.)
 /// Returns (frame, lane name, ticket of the completion).
 fn late_frames<'a>(v: &'a SView, lanes: &[LaneInfo], lane_by_name: &HashMap<&str, usize>) -> Vec<(&'a Frame, &'a str, u64)> {
-    let (Some(_), Some((tc, _))) = (v.superseded_by, v.completion) else { return vec![] };
+    let (Some(_), Some((tc, _))) = (v.superseded_by.or(v.reattached_by), v.completion) else { return vec![] };
     let asked_before = |lane: &str, kinds: &[ReqKind]| v.reqs.iter().chain(v.prior_reqs.iter()).any(|r| r.lane == lane && kinds.contains(&r.kind) && r.t0 < tc);
     v.frames
         .iter()
